@@ -525,6 +525,33 @@ func runCase(c *fw.Ctx, i int) {
 			report("DocumentChunker(reused).ChunkDocument", checkElementView(elemUnits, col.Chunks, c), elemUnits, col.Chunks)
 		})
 	}
+	// (2c) the same, after a hostile earlier document: every paragraph text of this document
+	// appears in the earlier one, on the same page number, as an outline heading — anything a
+	// chunker value remembers by text or page from the earlier document would show here
+	if i%2 == 0 {
+		c.Guard("DocumentChunker.reuse-after-lookalike", id, base, func() {
+			prev := &model.Document{}
+			for _, pg := range doc.Pages {
+				np := &model.Page{Number: pg.Number, Width: pg.Width, Height: pg.Height, Layout: &model.PageLayout{}}
+				for _, el := range pg.Elements {
+					if para, ok := el.(*model.Paragraph); ok && para.Text != "" {
+						np.Layout.Headings = append(np.Layout.Headings, model.HeadingInfo{Level: 1 + len(np.Layout.Headings)%3, Text: para.Text, Confidence: 1})
+						np.Elements = append(np.Elements, &model.Paragraph{Text: para.Text})
+					}
+				}
+				prev.Pages = append(prev.Pages, np)
+			}
+			dc := rag.NewDocumentChunkerWithConfig(ccfg, sc)
+			if i%4 == 0 {
+				dc = rag.NewDocumentChunker()
+			}
+			dc.ChunkDocument(prev)
+			col := dc.ChunkDocument(doc)
+			c.Count("chunks_checked", int64(len(col.Chunks)))
+			c.Count("reused_chunker_runs_after_lookalike", 1)
+			report("DocumentChunker(reused after look-alike).ChunkDocument", checkElementView(elemUnits, col.Chunks, c), elemUnits, col.Chunks)
+		})
+	}
 	// (3) layout view
 	if spec.Flavour != "elements" {
 		c.Guard("Chunker.Chunk", id, base, func() {
